@@ -905,7 +905,7 @@ def part_connections(params, tier, acc):
     rx, ry = params["root"]
     W, H = params.get("size", [12, 12])
     sim = SimMachine(repo(), W, H)
-    sim.full_sync_chips = {(rx, ry)}
+    sim.full_sync_chips = {(rx, ry), (1, 1)}
     sim.root = (rx, ry)
     eths = {}
     offs = [(ox + 12 * i, oy + 12 * j) for i in range(W // 12)
@@ -930,7 +930,14 @@ def part_connections(params, tier, acc):
             mc = mcm.MachineController("host")
             acc.evaluations += 1
             try:
-                n = mc.discover_connections()
+                if which == "all_up":
+                    n = mc.discover_connections()
+                else:
+                    # the discovery is asked for inside a context block that
+                    # names some other chip: what the controller learns about
+                    # the machine (its root chip) must not depend on that
+                    with mc(x=1, y=1):
+                        n = mc.discover_connections()
             except Exception as e:
                 acc.violation(dict(kind="exception", exc=type(e).__name__),
                               dict(part="connections", root=[rx, ry]),
